@@ -32,7 +32,12 @@ def run(chk):
     return chk
 
 
-def end_to_end(chk, P):
+def _ob(chk, prefix, only, key, text, fn):
+    if only is None or key in only:
+        chk.ob("%s.%s" % (prefix, key), text, fn)
+
+
+def end_to_end(chk, P, prefix="C07", only=None):
     EM = "emit_core::emitter::Emitter"
 
     def otlp_flush():
@@ -87,7 +92,7 @@ def end_to_end(chk, P):
                             if t is not None and (t != neg) is False:
                                 return False, "flush returns true on a path where a signal's flush failed", [], b.span
         return True, "", [c.loc for c in fl]
-    chk.ob("C07.R5:OtlpInner::blocking_flush", "every configured OTLP signal is flushed and a failed one fails the flush", otlp_flush)
+    _ob(chk, prefix, only, "R5:OtlpInner::blocking_flush", "every configured OTLP signal is flushed and a failed one fails the flush", otlp_flush)
 
     def fwd(key_ty, what):
         def f():
@@ -102,19 +107,19 @@ def end_to_end(chk, P):
                 return False, "the caller's timeout is not passed on", [], cs[0].loc
             return True, "", [cs[0].loc]
         return f
-    chk.ob("C07.R5:FileSetInner::blocking_flush", "the file emitter's flush is the channel's blocking flush", fwd("emit_file::FileSetInner", "FileSetInner"))
-    chk.ob("C07.R5:FileSet::blocking_flush", "FileSet forwards flush", fwd("emit_file::FileSet", "FileSet"))
-    chk.ob("C07.R5:Otlp::blocking_flush", "Otlp forwards flush", fwd("emit_otlp::client::Otlp", "Otlp"))
+    _ob(chk, prefix, only, "R5:FileSetInner::blocking_flush", "the file emitter's flush is the channel's blocking flush", fwd("emit_file::FileSetInner", "FileSetInner"))
+    _ob(chk, prefix, only, "R5:FileSet::blocking_flush", "FileSet forwards flush", fwd("emit_file::FileSet", "FileSet"))
+    _ob(chk, prefix, only, "R5:Otlp::blocking_flush", "Otlp forwards flush", fwd("emit_otlp::client::Otlp", "Otlp"))
 
     def worker_ok_after_sync():
         from . import c10
         return c10.sync_before_ok(P)
-    chk.ob("C07.R5:file-worker", "the file worker acknowledges a batch only after flush and sync_all", worker_ok_after_sync)
+    _ob(chk, prefix, only, "R5:file-worker", "the file worker acknowledges a batch only after flush and sync_all", worker_ok_after_sync)
 
     def otlp_ok_when_drained():
         from . import c12
         return c12.ok_only_when_drained(P)
-    chk.ob("C07.R5:otlp-transport", "the OTLP transport acknowledges a batch only when no request is left", otlp_ok_when_drained)
+    _ob(chk, prefix, only, "R5:otlp-transport", "the OTLP transport acknowledges a batch only when no request is left", otlp_ok_when_drained)
 
     def init_flush():
         out = []
@@ -132,4 +137,4 @@ def end_to_end(chk, P):
         if not out:
             raise mir.AnchorMissing("Init::blocking_flush")
         return True, "", out
-    chk.ob("C07.R5:Init::blocking_flush", "setup's flush forwards to the emitter and returns its result", init_flush)
+    _ob(chk, prefix, only, "R5:Init::blocking_flush", "setup's flush forwards to the emitter and returns its result", init_flush)
